@@ -105,18 +105,23 @@ def gen_queries(rng, xs, k):
     return [float(q) for q in qs if np.isfinite(q)]
 
 
-def part_lagrange(rep, rng, drv, tier, A):
+def part_lagrange(rep, rng, drv, tier, A, cases=None):
     sizes = [1, 1, 2, 2, 3, 3, 4, 5, 6, 7, 8, 10, 12, 15, 19, 25]
     n_sets = 120 if tier == "quick" else 2500
     reqs, meta = [], []
-    for si in range(n_sets):
-        m = rng.choice(sizes)
-        xs, sx = gen_nodes(rng, m)
+    if cases is None:
+        cases = []
+        for si in range(n_sets):
+            m = rng.choice(sizes)
+            xs, sx = gen_nodes(rng, m)
+            m = len(xs)
+            ys, sy = gen_values(rng, xs)
+            qs = gen_queries(rng, xs, 4 if m > 12 else 8)
+            perm = list(range(m))
+            rng.shuffle(perm)
+            cases.append((xs, ys, qs, perm, sx, sy))
+    for xs, ys, qs, perm, sx, sy in cases:
         m = len(xs)
-        ys, sy = gen_values(rng, xs)
-        qs = gen_queries(rng, xs, 4 if m > 12 else 8)
-        perm = list(range(m))
-        rng.shuffle(perm)
         inp = dict(xs=[C.fhex(x) for x in xs], ys=[C.fhex(y) for y in ys])
         rep.count("lagr_nodes=%d" % m if m < 10 else "lagr_nodes=%d-%d" % (5 * (m // 5), 5 * (m // 5) + 4))
         rep.count("lagr_node_style=" + sx)
@@ -503,8 +508,11 @@ def run(seed, tier, replay=None):
         inp = v["input"]
         atol = None if inp.get("atol") is None else C.unhex(inp["atol"])
         if "xs" in inp:
-            rep.notes.append("replay of a lagrange case: re-run with the same seed")
-            part_lagrange(rep, rng, drv, tier, A)
+            xs = [C.unhex(h) for h in inp["xs"]]
+            ys = [C.unhex(h) for h in inp["ys"]]
+            perm = inp.get("perm") or list(range(len(xs)))
+            qs = ([C.unhex(inp["x"])] if inp.get("x") else []) + xs
+            part_lagrange(rep, rng, drv, tier, A, cases=[(xs, ys, qs, perm, "replay", "replay")])
         elif "ns" in inp:
             part_knots(rep, rng, drv, tier, A, E, cases=[(inp["f"], C.unhex(inp["a"]), C.unhex(inp["b"]), inp["ns"], atol)])
         else:
